@@ -67,7 +67,8 @@ static Finding check_plan(const Plan& p, const Cfg& c, u64 sseed, Stats& agg, u6
     }
     if (p.mode == "preempt") { agg.add("sched_" + strf("%016llx", (unsigned long long)r.sched_hash), 1); return f; }
     // fresh-memory independence: the same history under other fill patterns must give the same log
-    if ((p.prop == "C13" || p.prop == "C15") && c.fills) {
+    // (a fresh plan relies on the initial state of its process: it cannot be executed a second time in the same process)
+    if ((p.prop == "C13" || p.prop == "C15") && c.fills && !c.fresh) {
         static const int alt[] = {0, 1, 2, 3};
         int tried = 0;
         for (int fl : alt) {
@@ -89,7 +90,7 @@ static Finding check_plan(const Plan& p, const Cfg& c, u64 sseed, Stats& agg, u6
         }
     }
     // single-fault enumeration: every allocation request of the history fails once
-    if (p.prop == "C15" && c.enumerate) {
+    if (p.prop == "C15" && c.enumerate && !c.fresh) {
         // allocation requests per op from the fault-free log
         std::vector<std::pair<size_t, int>> sites;
         for (size_t i = 0; i < r.log.size() && i < p.ops.size(); ++i) {
